@@ -312,7 +312,7 @@ class Worker:
             self.state, self.at = 'idle', self.sim.now + 5.0
             return
         if outcome is True:
-            w.store_as_worker(m)
+            w.store_as_worker(m, values)
         w.on_reply_sent(self, m, outcome, values)
         ep.send(msg)
         ep.close()
@@ -380,6 +380,10 @@ class PipeWorld:
         self.user_done_at = None
         self.chron = []
         self.stop_on = set(self.cfg['stop_on'] or [self.cfg['prop']])
+        if self.cfg.get('many_targets'):
+            # with hundreds of targets a run that has lost a unit would grind through a liveness phase of hundreds of
+            # dispatch periods: it ends at the first sign of it, whatever property is being checked
+            self.stop_on |= {'C03', 'C04', 'C11'}
         self.nontrivial = False
         self.stopped = False
         self.vcount = collections.Counter()
@@ -461,6 +465,10 @@ class PipeWorld:
         nt = ch.choose('gen.ntargets', 5)
         pool = list(TARGET_POOL)
         self.targets0 = [pool.pop(ch.choose('gen.target', len(pool))) for _ in range(nt)]
+        if cfg.get('many_targets'):
+            # a survey: hundreds of targets known to the database (anything per-release or per-tick that is bounded shows)
+            lo, hi = cfg['many_targets']
+            self.targets0 = [f'M{i:03d}' for i in range(lo + ch.choose('gen.many', hi - lo + 1))]
         self.op(f'engine: {self.spec.brief()}')
         self.op(f'targets: {self.targets0}')
         # pre-populate: targets and the persisted versions of a subset of algorithms
@@ -558,6 +566,7 @@ class PipeWorld:
         self.active_at_step_start = False
         self.in_reply = self.reply_fault = False
         self.answered = set()
+        self.released_why = {}
         import dawgie
         import dawgie.db
 
@@ -848,7 +857,7 @@ class PipeWorld:
                              f'{alg}[{t}] released while {bad}')
         G.must[alg].discard(t)
         G.opt[alg].discard(t)
-        G.why.pop((alg, t), None)
+        self.released_why[(alg, t)] = G.why.pop((alg, t), None)
         G.inflight[(alg, t)] += 1
         G.converting.add((alg, t))
 
@@ -971,7 +980,7 @@ class PipeWorld:
 
         return getattr(getattr(ctx, 'fsm', None), 'state', None) in ('updating', 'loading')
 
-    def store_as_worker(self, m):
+    def store_as_worker(self, m, values=None):
         """what the real worker's ds.update() leaves in the pipeline's tables before it replies: one primary row per
         value under the run id of the task (through the database port in reality, written straight here).  Without
         it dawgie.db.next() would hand out the same run id for ever and nothing that depends on run ids differing
@@ -991,14 +1000,15 @@ class PipeWorld:
             return util.append(name, dbi.tables[tab.value], dbi.indices[tab.value], parent, util.LocalVersion(ver) if ver else None)[1]
 
         try:
-            trg = app(Table.target, m.target or ALL)
             tid = app(Table.task, a.pkg)
             aid = app(Table.alg, alg.name(), tid, alg._get_ver())
-            for sv in alg.state_vectors():
-                sid = app(Table.state, sv.name(), aid, sv._get_ver())
-                for k in sv.keys():
-                    vid = app(Table.value, k, sid, sv[k]._get_ver())
-                    dbi.tables[Table.prime.value][str((m.runid, trg, tid, aid, sid, vid))] = 'sim-blob'
+            for tn in sorted({m.target or ALL} | {v.split('.', 2)[1] for v, _n in (values or [])}):
+                trg = app(Table.target, tn)
+                for sv in alg.state_vectors():
+                    sid = app(Table.state, sv.name(), aid, sv._get_ver())
+                    for k in sv.keys():
+                        vid = app(Table.value, k, sid, sv[k]._get_ver())
+                        dbi.tables[Table.prime.value][str((m.runid, trg, tid, aid, sid, vid))] = 'sim-blob'
             self.probes['stored_by_worker'] += 1
         except Exception as e:  # noqa  (database being closed under the writer)
             self.probes['store_failed'] += 1
@@ -1020,6 +1030,11 @@ class PipeWorld:
                 if getattr(self, 'tail_no_news', False):
                     new = False  # the event set of the liveness phase is closed (see tail())
                 values.append((f'{m.runid}.{t}.{v}', new))
+            if t != ALL and cfg.get('retarget', True) and ch.flip('w.retarget', 1, 10):
+                # the algorithm also writes to a sub-target (Dataset.retarget): one reply carries values of two targets
+                t2 = f'{t}~n1'
+                values += [(f'{m.runid}.{t2}.{v.split(".", 2)[2]}', new) for v, new in list(values)]
+                self.probes['reply_with_two_targets'] += 1
             if hasattr(self, 'tail_news') and any(n for _v, n in values):
                 self.tail_news += 1
         return outcome, values
@@ -1144,13 +1159,14 @@ class PipeWorld:
                 self.probes['completion_recorded_once'] += 1
         if msg.success is True:
             newvals = {v.split('.', 2)[2] for v, n in (msg.values or []) if n}
+            tgts = {v.split('.', 2)[1] for v, n in (msg.values or []) if n} or {t}  # a reply may carry values of a sub-target too
             owed = collections.defaultdict(set)
             for y in ref.consumers(newvals) - {alg}:
-                owed[y] |= G.targets_for(y, {t})
+                owed[y] |= G.targets_for(y, tgts)
             for v in newvals:
                 if v in ref.feedbacks:
                     y = ref.feedbacks[v]
-                    owed[y] |= G.targets_for(y, {t})
+                    owed[y] |= G.targets_for(y, tgts)
             for y, ts in owed.items():
                 G.must[y] |= ts
                 for t_ in ts:
@@ -1260,6 +1276,12 @@ class PipeWorld:
                 for pr in ('C03', 'C11'):  # C03 'otherwise stays queued'; C11 'tasks that cannot be placed stay queued'
                     self.violate(pr, 'released_unit_lost', 'not_in_farm',
                                  f'{tag}[{t}] was released by the scheduler but is neither waiting to be dispatched, queued in the farm nor with a worker')
+                why = self.released_why.get((tag, t))
+                if why in ('new_value', 'version'):
+                    # ... and it was owed because an input was reported new (C02) / a version is new (C15): it never runs
+                    self.violate('C02' if why == 'new_value' else 'C15', 'rerun_after_new_value_not_released' if why == 'new_value' else 'new_version_never_released',
+                                 'lost_between_scheduler_and_farm',
+                                 f'{tag}[{t}] had to run ({why}); the scheduler released it but no task message was ever made for it')
         # C03 (iv): crew view of busy == handed and unanswered
         busy = sorted(b.split(' duration')[0] for b in farm.crew()['busy'])
         want = sorted(f'{u[0]}[{u[1]}]' for u in G.handed)
